@@ -51,6 +51,10 @@ var (
 	reFiniteAsIs  = regexp.MustCompile(`^if math\.IsInf\((float64\(tv\)|tv), 0\) \|\| tv != tv \{ v = nil err = newCoerceErr\(tv, "\w+"\) \}$`)
 	reParseFltFin = regexp.MustCompile(`^var f float64 ; if f, err = strconv\.ParseFloat\(tv, 64\); err == nil \{ v = f if math\.IsInf\(f, 0\) \|\| f != f \{ v = nil err = newCoerceErr\(tv, "\w+"\) \} \}$`)
 	reParseFltFin32 = regexp.MustCompile(`^var f float64 ; if f, err = strconv\.ParseFloat\(tv, 64\); err == nil \{ v = float32\(f\) if math\.IsInf\(float64\(float32\(f\)\), 0\) \|\| f != f \{ v = nil err = newCoerceErr\(tv, "\w+"\) \} \}$`)
+	// float → integer with the truncated value range-checked (the fraction is dropped: the repository's tests expect
+	// Int.CoerceOut(3.1) = 3)
+	reConvTrunc32 = regexp.MustCompile(`^v = int32\(tv\) ; if f := (float64\(tv\)|tv); f != f \|\| f <= -2147483649 \|\| 2147483648 <= f \{ v = nil err = newCoerceErr\(tv, "\w+"\) \}$`)
+	reConvTrunc64 = regexp.MustCompile(`^v = int64\(tv\) ; if f := (float64\(tv\)|tv); f != f \|\| f < -9223372036854775808 \|\| 9223372036854775808 <= f \{ v = nil err = newCoerceErr\(tv, "\w+"\) \}$`)
 	reFailA       = regexp.MustCompile(`^err = newCoerceErr\((v|tv), ("\w+"|t\.N|t\.Name\(\))\) ; v = nil$`)
 	reFailB       = regexp.MustCompile(`^v = nil ; err = newCoerceErr\((v|tv), ("\w+"|t\.N|t\.Name\(\))\)$`)
 	reItoa        = regexp.MustCompile(`^v = strconv\.Itoa\((tv|int\(tv\))\)$`)
@@ -126,6 +130,18 @@ func actionOf(body string, pos string, kinds []string) string {
 			return ".convStrict .f32"
 		}
 		return unknown("coerce_arm_finite_asis", pos)
+	case reConvTrunc32.MatchString(body), reConvTrunc64.MatchString(body):
+		m := reConvTrunc32.FindStringSubmatch(body)
+		t := ".i32"
+		if m == nil {
+			m = reConvTrunc64.FindStringSubmatch(body)
+			t = ".i64"
+		}
+		// `float64(tv)` for a float32 arm, `tv` for a float64 arm
+		if !(m[1] == "float64(tv)" && all(func(k string) bool { return k == "float32" })) && !(m[1] == "tv" && all(func(k string) bool { return k == "float64" })) {
+			return unknown("coerce_arm_trunc_kind", pos)
+		}
+		return ".convTrunc " + t
 	case reParseFltFin.MatchString(body):
 		return ".parseFloatFinite .f64"
 	case reParseFltFin32.MatchString(body):
